@@ -167,7 +167,17 @@ func c06Attempts(c *Ctx, p *Prog, f *ssa.Function, do ssa.Instruction) {
 		return
 	}
 	phi, init := loopCounter(f)
-	if phi == nil || !(phi.Block().Dominates(do.Block())) {
+	// the sending call may sit in a new helper that holds the body of one attempt: the loop is
+	// then judged at the helper's only call site
+	anchor := do
+	for k := 0; k < 4 && anchor.Parent() != f; k++ {
+		sites := liftSites(anchor)
+		if len(sites) != 1 {
+			break
+		}
+		anchor = sites[0]
+	}
+	if phi == nil || anchor.Parent() != f || !(phi.Block().Dominates(anchor.Block())) {
 		c.Bad("C06.A", "upload:attempt-bound", p, do.Pos(), "client.Do is inside a loop that is not a counted loop (counter phi with constant start and +1 steps controlling the exit): the number of attempts is not bounded by a constant")
 		return
 	}
@@ -366,7 +376,9 @@ func c06Refusal(c *Ctx, p *Prog, rule string) {
 func c06Fence(c *Ctx, p *Prog, rule string, post *ssa.Function) {
 	// (1) lockset over the replay state
 	guards := []*Guard{}
-	for _, fld := range []string{"readHead", "writeHead", "buf", "gen"} {
+	// (the source itself is part of that state: a superseded attempt that still reads it — with
+	// the lock released "so that a retry need not wait" — takes bytes the retry then misses)
+	for _, fld := range []string{"readHead", "writeHead", "buf", "gen", "r"} {
 		guards = append(guards, &Guard{Type: "agent/utils.bufferedReadSeeker", Field: fld, Lock: "agent/utils.bufferedReadSeeker.mu",
 			Why:    "net/http's transport may still be reading the body of a failed attempt in its own goroutine when the retry rewinds and re-reads it",
 			Exempt: map[string]string{"agent/utils.newBufferedReadSeeker": "constructor"}})
@@ -376,7 +388,7 @@ func c06Fence(c *Ctx, p *Prog, rule string, post *ssa.Function) {
 	for _, g := range guards {
 		accs := GuardedAccesses(p, g)
 		if len(accs) == 0 {
-			if g.Field == "gen" {
+			if g.Field == "gen" || g.Field == "r" {
 				continue
 			}
 			c.Unk(rule, "guard:"+g.Field, p, 0, "replay-buffer field "+g.Field+" has no access (renamed?)")
